@@ -2,7 +2,7 @@
 PROPS["C10"] = {
     "level": "other",
     "explanation": "(1) Numbering: USED_WF(list) := every entry i of a used-note stack carries count == i+1 (ghost index over a stack of symbolic size). mark_footnote/citation/glossary/abbreviation_as_used (unmodified writer.c, real stack_push) are PROVED to keep USED_WF, to append an unused note as entry size+1 with count == size, and to change nothing for a note already numbered -- entries are numbered 1..n in order of first use. footnote_from_bracket / citation_from_bracket are proved (hash lookup by contract) to hand the writer a number that is the position of an EXISTING entry, inline notes being appended as entry size+1. (2) Random anchors: the footnote list entry is checked against ANCHOR(n) = R(seed_base+n)%32000+1 with srand/rand an uninterpreted function; holds without --random, FAILS with it (genuine defect: the list keeps id=fn:n while calls link to #fn:<random>). (3) Heading id vs automatic cross-reference: process_header_to_links and label_from_header run on the same bounded header token (ATX open/closed, Setext 1/2, with/without manual label, symbolic title bytes) and link->url must equal '#'+id; holds for ATX, Setext-1 and manual labels, FAILS for Setext-2 (genuine defect: underline dashes end up in the link target). (4) TOC: the recursive *_toc_entry_* walkers of html/latex/opendocument/epub under their own contract (--enforce-contract-rec): a TOC entry's label is derived with the heading's own index as label counter (the state in which the heading's id is derived), entries in document order, no heading twice (<= 3 headings). (5) the footnote list keeps up with notes that become used while it is written (nested footnotes). (6) extract_*_from_stack (real uthash, one-entry table): the number returned to a call site indexes the used-stack of the same kind and that entry is the note looked up. Level 'other': (1) is an unbounded proof but (2),(3) are bounded and no unit composes call sites, list and back-links of a whole document.",
-    "slice": "mark_footnote/citation/glossary/abbreviation_as_used, footnote_from_bracket, citation_from_bracket (DFCC, any stack size); mmd_export_footnote_list_html (1 note); process_header_to_links, label_from_header, manual_label_from_header, label_from_token, label_from_string, link_new, clean_string (bounded header shapes)",
+    "slice": "mark_footnote/citation/glossary/abbreviation_as_used, footnote_from_bracket, citation_from_bracket (DFCC, any stack size); mmd_export_footnote_list_html (1 note); process_header_to_links, label_from_header, manual_label_from_header, label_from_token, label_from_string, link_new, clean_string (bounded header shapes); process_table_to_link and the BLOCK_TABLE arms of the writers (one shared rule for the labelled token); the citation call site of html.c (id=\"cnref:N\" iff first use; locator through the escaper)",
     "not_reached": "that every href=#x of a rendered document has a matching id=x; the PAIR_BRACKET_FOOTNOTE/_CITATION/_GLOSSARY arms and the BLOCK_PARA back-link of mmd_export_token_html (per-type writer units, DESIGN section 2); glossary_from_bracket/abbreviation_from_bracket (string surgery + loops); extract_*_from_stack (uthash lookup) is used by contract only; citation/glossary list exporters; table captions; TOC entries; LaTeX \\autoref/\\label",
     "trusted_base": ["cbmc/goto-cc/goto-instrument 6.11.0 (DFCC instrumentation, MiniSat2)", "lib/ds_sink.c as the DString specification (C19)", "C18 contract of the token allocator (fresh object) in the header units"],
     "assumptions": [],
